@@ -93,8 +93,12 @@ def one_case(ctx, k):
     scope = list(range(nv)) if rs.rand() < 0.5 else [int(v) for v in rs.permutation(40)[:nv]]
     explicit = rs.rand() < 0.6
     arg = int(rs.randint(nv)) if explicit else int(rs.randint(1000))
-    rep = dict(kind='c11', data=X.tolist(), alpha=alpha, scope=scope, explicit=explicit, arg=arg)
-    ctx.case(fam, nontrivial_key=json.dumps([X.tolist(), alpha, scope, explicit, arg]) if nv >= 2 else None,
+    # the storage type of the 0/1 matrix is the caller's business: the same data as int64, float32, float64, bool, (u)int8
+    dt = ['int64', 'float32', 'float64', 'bool', 'uint8', 'int8'][k % 6]
+    X = X.astype(dt)
+    ctx.count('data-dtype:' + dt)
+    rep = dict(kind='c11', data=X.astype(int).tolist(), dtype=dt, alpha=alpha, scope=scope, explicit=explicit, arg=arg)
+    ctx.case(fam, nontrivial_key=json.dumps([X.astype(int).tolist(), alpha, scope, explicit, arg]) if nv >= 2 else None,
              sample=dict(family=fam, rows=nr, vars=nv, alpha=alpha, scope=scope, root=('explicit' if explicit else 'random', arg)))
     ctx.count('family:' + fam)
     ctx.count(f'vars={nv}')
@@ -129,7 +133,7 @@ def one_case(ctx, k):
         bad.append(('c11-mi', 'mutual information matrix deviates from the smoothed-estimate MI by more than 1e-5'))
     if ctx.driver_ok:
         drv = ctx.get_driver()
-        op = dict(op='fitcheck', data=X.tolist(), alpha=fstr(Fraction(repr(alpha))), pred=[int(t) for t in clt.tree], root=int(clt.root),
+        op = dict(op='fitcheck', data=X.astype(int).tolist(), alpha=fstr(Fraction(repr(alpha))), pred=[int(t) for t in clt.tree], root=int(clt.root),
                   params=[[[fstr(frac(params[i, l, kk])) for kk in range(2)] for l in range(2)] for i in range(nv)],
                   mi=[[fstr(frac(v)) for v in row] for row in mi64], tol='1/1000000')
         if nv > 1:
@@ -180,7 +184,7 @@ def replay(rep):
         from harness.common import replay_demo
         return replay_demo(rep['replay'])
     r = rep['replay']
-    X = np.array(r['data'])
+    X = np.array(r['data']).astype(r.get('dtype', 'int64'))
     nv = X.shape[1]
     try:
         if r['explicit']:
